@@ -332,6 +332,7 @@ func RunExpr(ctx *Task, node *ast.Node) *errchain.PlError {
 
 	// TODO
 	case ast.TypeAttrExpr:
+		ctx.Regs.Reset() // yields no value
 		return nil
 
 	case ast.TypeBoolLiteral:
@@ -1046,6 +1047,11 @@ func RunCallExpr(ctx *Task, expr *ast.CallExpr) *errchain.PlError {
 	if funcCall, ok := ctx.GetFn(expr.Name); ok {
 		if err := funcCall(ctx, expr); err != nil {
 			return err
+		}
+		// a function that declares no return value yields none: do not leave the
+		// value of its last evaluated argument (or of an earlier expression) behind
+		if fn := ctx.funcs[expr.Name]; fn != nil && len(fn.Desc.Returns) == 0 {
+			ctx.Regs.Reset()
 		}
 	}
 	return nil
